@@ -294,7 +294,11 @@ def run_case(case, rec):
                           % (term, vs, vp, closed, list(extra_key)), separable=vs, pointwise=vp, closed=closed)
 
     if term.startswith("norm"):
-        S, V = B, 2.5
+        # the separable code needs the number of normalisation samples to be a multiple of the number of time
+        # stamps of the batch: equal, twice and three times as many, in turn
+        nt_, V = B, 2.5
+        S = B * (1 + case["seed"] % 3) if nonst else B
+        rec.count("norm_samples_per_time_stamp_%d" % (S // nt_))
         samples = rng.uniform(-1, 2, (S, d))
         grid_s = np.array([z for _, z in grid_points(samples)])
         kw_s = dict(norm_samples=J(samples), norm_int_length=V, loss_weights=LW(norm_loss=w))
@@ -304,7 +308,7 @@ def run_case(case, rec):
             closed = w * (V * np.mean([sf.val(z)[0] for z in grid_s]) - 1) ** 2
             both(kw_s, kw_p, bs, bs, "norm_loss", closed)
         else:
-            tx = rng.uniform(0, 1, (S, 1 + d))  # as many times as norm samples (separable code requires a multiple)
+            tx = rng.uniform(0, 1, (nt_, 1 + d))
             bs = jinns.data.PDENonStatioBatch(times_x_inside_batch=J(tx), times_x_border_batch=None)
             closed = w * float(np.mean([(V * np.mean([sf.val(np.concatenate([[t], z]))[0] for z in grid_s]) - 1) ** 2
                                         for t in tx[:, 0]]))
